@@ -69,6 +69,8 @@ HARNESSES = [
          "B(input<=8, output<=32 bytes; complete otherwise)", "decode_huffman_code replaced by a contract model"),
         ("k_arm_code_lengths_hufflen", ["C03", "C04", "C05", "C07"], ["arm ReadHufflenTableCodeSize", "read_bits"],
          "B(input<=8, output<=32 bytes; complete otherwise)", "init_tree replaced by a contract model"),
+        ("k_decompress_fast_bounded_ring512", ["C03", "C04", "C05", "C08"], ["decompress_fast", "fill_bit_buffer", "InputWrapper::read_u32_le"],
+         "B(at most 5 symbols before end-of-block, input<=18, output<=520 bytes incl. a 512-byte ring)", "HuffmanTable::lookup, apply_match, transfer replaced by contract models"),
         ("k_decompress_fast_bounded", ["C03", "C04", "C05", "C08"], ["decompress_fast", "fill_bit_buffer", "InputWrapper::read_u32_le"],
          "B(at most 5 symbols before end-of-block, input<=18, output<=320 bytes)", "HuffmanTable::lookup, apply_match, transfer replaced by contract models"),
       )],
